@@ -135,6 +135,12 @@ def rule_class(nodes, labels):
     fired = sorted({"%s-%s" % (n["kind"], l.split(":")[0]) for n, l in zip(nodes, labels)
                     if n is not None and l not in ("keep", "UNSUP", "EXN") and not (l.startswith("keep:"))})
     mm = sorted({n["kind"] for n, l in zip(nodes, labels) if n is not None and l.startswith("keep:")})
+    # no rule of refine fires, but rebuilding Pow(Pow(b, -1), q) with pow() collapses it to b**(-q)
+    # (the constructor's own rewriting, pow.cpp, outside the anchored code)
+    collapse = [n for n, l in zip(nodes, labels) if n is not None and n["kind"] in ("Pow", "SPow") and l == "keep"
+                and n["inputs"].startswith("(Pow ") and not n["cands"].get("keep", "").startswith("(Pow (Pow ")]
+    if collapse:
+        fired.append("Pow-collapse")
     return "+".join(fired + mm) if (fired or mm) else "none"
 
 
